@@ -94,7 +94,7 @@ func (r *reader) Int64() (int64, error) {
 }
 func (r *reader) Uint8() (uint8, error) {
 	n, err := r.r.Read(r.buf[0:1])
-	if err != nil {
+	if n < 1 && err != nil {
 		return 0, err
 	}
 	if n < 1 {
